@@ -54,12 +54,6 @@ def retLine : Ret → String
 
 def probe : Bytes := [0xEE, 0xDD, 0xCC]
 
-def applyCut (d : Disk) (il fid : Nat) (fl : Option Nat) : Disk :=
-  let d1 := d.cutIdx il
-  match fl with
-  | none => { d1 with files := setFile d1.files fid [] }
-  | some n => d1.cutFile fid n
-
 def step (s : St) (ts : List String) : St × String :=
   match ts with
   | ["cfg", m] =>
